@@ -361,6 +361,14 @@ func (*Version).UnmarshalControl
   ensures result != nil ==> *version == old(*version)
   modifies *version
 
+// the encoding.TextUnmarshaler entry point (what encoding/json calls): the same parser over the bytes as text
+func (*Version).UnmarshalText
+  requires version != nil
+  ensures result == nil ==> version.Epoch == vepoch(trimspace(str(text))) && version.Version == vupstream(trimspace(str(text))) && version.Revision == vrevision(trimspace(str(text)))
+  ensures result == nil <==> wellformed(trimspace(str(text)))
+  ensures result != nil ==> *version == old(*version)
+  modifies *version
+
 // rendering: the exact concatenation
 pure func renderNoEpoch(v Version) string {
   len(v.Revision) > 0 || indexByte(v.Version, 45, 0) >= 0 ? v.Version ++ "-" ++ v.Revision : v.Version }
@@ -470,7 +478,7 @@ func Version.MarshalControl
 func Version.MarshalText
   ensures str(result0) == render(version) && result1 == nil
 
-property C03: lemma lastidx_is, lemma lastidx_none, lemma val_cat, lemma idx_least, lemma rt_body, lemma idx_is, lemma idx_none, lemma rt_epoch, lemma rt_noepoch, lemma rt_version, lemma val_prefix, lemma alldig_prefix, lemma wf_chars, parseInto, Parse, (*Version).UnmarshalControl, Version.StringWithoutEpoch, Version.String, Version.MarshalControl, Version.MarshalText
+property C03: lemma lastidx_is, lemma lastidx_none, lemma val_cat, lemma idx_least, lemma rt_body, lemma idx_is, lemma idx_none, lemma rt_epoch, lemma rt_noepoch, lemma rt_version, lemma val_prefix, lemma alldig_prefix, lemma wf_chars, parseInto, Parse, (*Version).UnmarshalControl, (*Version).UnmarshalText, Version.StringWithoutEpoch, Version.String, Version.MarshalControl, Version.MarshalText
 
 // the version parser as part of C18: total (no panic: every BOUNDS/NIL/OVERFLOW obligation), a value xor an error,
 // and no write outside the result (frames)
